@@ -766,6 +766,7 @@ class StmtGen:
 		self.vis: list[list[str]] = [['a', 'b', 'c']]
 		self.closed: list[str] = []
 		self.counters = 0
+		self.fixed: set[str] = set()   # not assignable here: loop variables and what stop / step of an enclosing for read
 		self.shape: Counter[str] = Counter()
 
 	def visible(self) -> list[str]:
@@ -801,6 +802,15 @@ class StmtGen:
 		return f"{self.bool_expr(depth - 1)} {r.choice(['and', 'or'])} {self.bool_expr(depth - 1)}"
 
 	def target(self) -> str:
+		t = self._target()
+		for _ in range(8):
+			if t not in self.fixed:
+				return t
+			t = self._target()
+		fresh = [n for n in self.POOL + ['z0', 'z1', 'z2', 'z3'] if n not in self.visible() and n not in self.fixed]
+		return fresh[0]
+
+	def _target(self) -> str:
 		r = self.rng
 		k = r.random()
 		locals_vis = [n for n in self.visible() if n in self.POOL]
@@ -856,6 +866,28 @@ class StmtGen:
 				out.append(f'{pre}else:')
 				out.extend(self.block(depth - 1, ind + 1, r.randint(1, 3)))
 			return out
+		if k < 0.93:
+			# for over range: fresh loop variable, bounded arguments, `stop` may follow `i < ` unparenthesised, the body leaves the loop
+			# variable and everything stop / step read alone (the hypotheses of C01.stmt_agree; their negations are probe programs)
+			def small() -> str:
+				x = r.choice(self.visible())
+				return r.choice([str(r.randint(0, 4)), f'{x} % {r.randint(1, 4)}', f'({x} & {r.randint(1, 3)})', f'({x} & 3) + {r.randint(0, 2)}', f'{r.randint(0, 2)} << 1'])
+			form = r.choice([1, 2, 2, 3])
+			args = [small() for _ in range(form)]
+			if form == 3:
+				args[2] = str(r.randint(1, 3))
+			self.shape[f'for:range/{form}'] += 1
+			i_name = f'i{self.counters}'
+			self.counters += 1
+			reads = set(re.findall(r'[a-z][a-z0-9]*', ' '.join(args[1:] if form > 1 else args)))
+			saved = set(self.fixed)
+			self.fixed |= reads | {i_name}
+			self.vis.insert(0, [i_name])
+			out = [f"{pre}for {i_name} in range({', '.join(args)}):"]
+			out.extend(self.block(depth - 1, ind + 1, r.randint(1, 3)))
+			self.closed.extend(self.vis.pop(0))
+			self.fixed = saved
+			return out
 		self.shape['while'] += 1
 		k_name = f'k{self.counters}'
 		self.counters += 1
@@ -892,6 +924,14 @@ def stmt_encode(tr: cxx.Transpiler, source: str) -> tuple[str, list[str], dict[i
 			return f'R {rn.enc(x.return_value)}'
 		if kind == 'While':
 			return f'W {rn.enc(x.condition)} {enc_block(x.statements)}'
+		if kind == 'For':
+			if x.iterates.calls.tokens != 'range' or len(x.symbols) != 1:
+				raise ValueError('for loop outside the core')
+			name = x.symbols[0].tokens
+			vals = [rn.enc(a.value) for a in x.iterates.arguments]
+			lit = lambda t: f'a {rn.ids.setdefault(t, len(rn.ids) + 1)} {hx(t)}'  # noqa: E731 - the `0` / `1` proc_for_range supplies
+			begin, stop, step = (lit('0'), vals[0], lit('1')) if len(vals) == 1 else (vals[0], vals[1], lit('1')) if len(vals) == 2 else vals
+			return f'F {rn.ids.setdefault(name, len(rn.ids) + 1)} {hx(name)} {begin} {stop} {step} {enc_block(x.statements)}'
 		if kind == 'If':
 			arms = [(x.condition, x.statements)] + [(e.condition, e.statements) for e in x.else_ifs]
 			has_else = type(x.else_clause).__name__ == 'Else'
@@ -1008,7 +1048,7 @@ def stream_stmt(ctx: Ctx) -> Stream:
 	st.histogram.update({f'gen:{k}': v for k, v in shape.items()})
 	st.histogram['py-outside-subset-skipped'] = skipped_out
 	st.histogram['cpp-run'] = len(gxx)
-	st.note = ('generated core programs (assign / return / if-elif-else / bounded while over int/bool operator expressions; reads visible in the C++ block structure; '
+	st.note = ('generated core programs (assign / return / if-elif-else / bounded while / for over range(1-3 arguments) over int/bool operator expressions; reads visible in the C++ block structure; '
 		'targets: visible, fresh, re-declared after a closed block, parameters) through the real App/Py2Cpp: the statement tree tranp built is serialised (declared type '
 		'from Reflections.type_of/to_accessible_name) and the model must reproduce the emitted body lines exactly (stmtemit), CPython\'s result (stmtpy, scopeOK = true) '
 		'and g++ -fsanitize=undefined running the real emitted function (stmtcpp)')
@@ -1055,8 +1095,11 @@ STATEMENTS = {
 	'toyOps_law': 'non-vacuity of the float hypotheses (an interpretation satisfying ModLaw) + an example through agree_full',
 	'fmod_left_type_regression': 'the repaired fmod:left-type (6063966, Ty.acc: the accumulated left type stays floating point): x % a % b with float x is emitted fmod(fmod(x, a), b), is inside agree_full, and the tag check of pyEval never fires on it for a float x and ints a, b',
 	'stmt_decl': 'the model of VarsCollector (one pass, `_merged`: same or enclosing scope) marks as declarations exactly the assignments whose name is not declared in an open C++ block at that point (proved equal to the scoped reading annotV)',
-	'stmt_agree': 'statements core (v = e, return e, if/elif/else, while over the operator core, 32-bit ints/bools): if every read is visible in the C++ block structure (scopeOK) and the Python run (one function-level store) is InSubset and returns r, the C++ reading of the emitted statements (declaration at the first assignment per scope chain, block frames pushed/popped at braces, emitted expression tokens parsed by cppTable) returns r with the same fuel',
+	'stmt_agree': 'statements core (v = e, return e, if/elif/else, while, for v in range(begin, stop, step) over the operator core, 32-bit ints/bools): under the static condition scopeOK — every read is visible in the C++ block structure; for a for loop: fresh loop variable, the body assigns neither it nor anything stop/step read, stop may follow `v < ` unparenthesised, positive step — if the Python run (one function-level store, range evaluated once, loop variable rebound per iteration) is InSubset and returns r, the C++ reading of the emitted statements (declaration at the first assignment per scope chain, frames pushed/popped at braces and at the for statement, stop and step re-evaluated per iteration, emitted expression tokens parsed by cppTable) returns r with the same fuel',
 	'stmt_scope_counterexample': 'scopeOK is not vacuous: `if a > 0: v = 1 else: v = 2; return v` is valid Python (returns 1) but the statements the collector logic yields read an undeclared v (the real emitter rejects: finding reject:block-scoped-name)',
+	'range_reevaluated_counterexample': 'the known finding range:args-reevaluated as a fact about the emitted form: `for i in range(0, n, 1): if n < 5: n = n + 1; t = t + 1` — Python iterates twice, the emitted `for (auto i = 0; i < n; i += 1)` five times; scopeOK fails exactly on the clause "the body assigns nothing stop reads"',
+	'range_loopvar_counterexamples': 'the two loop-variable clauses of scopeOK are necessary on the emitted form: a loop variable that is an already declared name is shadowed by `auto i` (python 2, c++ 5; finding range:loopvar-shadowed); a body that assigns the loop variable skips iterations (python 10, c++ 4; finding range:loopvar-assigned)',
+	'paren_decision_uses_own_operand': 'in the fold over a chain the k-th right element is parenthesised iff is_regrouped_operand(that element, the operator in front of it), the first operand against the first operator: the pairing of operands with operators is part of the model (a shifted pairing changes the emitted text the emit stream compares)',
 }
 
 
@@ -1085,20 +1128,22 @@ def run(ctx: Ctx) -> int:
 		partial={
 			'proved': 'operator level: emitted tokens re-parsed by the C++ grammar (Prec table + wrapper grammar for ?:, calls, members) = Python grouping for every chain-free operator node incl. ternary, in / not in, fmod (group, group_full); '
 				'the emitter\'s precedence table agrees with the C++ grammar table; operator semantics agree inside the subset on ints, bools and abstract floats (sem, agree, sem_full, agree_full); template/ladder totality (ops_total, ladder_eq). '
-				'statement level: which assignment declares (stmt_decl) and agreement of assign / return / if-elif-else / while programs over the operator core on ints/bools under the visibility condition (stmt_agree)',
+				'statement level: which assignment declares (stmt_decl) and agreement of assign / return / if-elif-else / while / for-over-range programs over the operator core on ints/bools under the static condition scopeOK (stmt_agree), each clause of which is proved necessary on the emitted form (stmt_scope_counterexample, range_reevaluated_counterexample, range_loopvar_counterexamples)',
 			'correspondence_only': 'Model.Emit = real Py2Cpp on operator nodes (stream emit: exact text, tokens, wf, CPython grouping); cppTable and the wrapper grammar = g++\'s grammar (stream cpptable; by value in stream sem); '
 				'pyEval / cEvalX = CPython / g++ on ints, bools, floats (stream sem); Model.EmitStmt = real Py2Cpp body lines, CPython and g++ on generated core programs (stream stmt)',
-			'search_only': 'for loops, break/continue, functions/closures/default args, classes, enums, containers, comprehensions, strings, casts, exceptions, augmented/destructuring assignment, float and bool variables in statements, '
+			'search_only': 'for loops over lists/dicts/enumerate, break/continue, augmented assignment, calls between functions, functions/closures/default args, classes, enums, containers, comprehensions, strings, casts, exceptions, augmented/destructuring assignment, float and bool variables in statements, '
 				'acceptance by g++ -std=c++20, never-rejected: generated programs vs CPython',
 			'false_on_current_tree': 'the grouping sentence for comparison chains (group_chain_counterexample; known finding chain-compare); '
-				'never-rejected for names first assigned in a nested block and read after it (stmt_scope_counterexample; finding reject:block-scoped-name)',
+				'never-rejected for names first assigned in a nested block and read after it (stmt_scope_counterexample; finding reject:block-scoped-name); '
+				'for over range outside scopeOK: re-evaluated stop/step, shadowed or assigned loop variable (range_reevaluated_counterexample, range_loopvar_counterexamples; findings range:args-reevaluated, range:loopvar-shadowed, range:loopvar-assigned)',
 		},
 		assumptions=[
 			'an atom is any primary; its text is whatever its own handler rendered (leaf handlers are outside the model)',
 			'the domain name of each chain element and the declared type of each assignment are the ones Reflections.type_of / to_domain_name / to_accessible_name gave (type inference is C03\'s subject)',
 			'`in` / `not in` are grouped (call form = a postfix primary) but their C++ value needs containers: Err.unsupported in cEvalX, search only',
 			'floats are abstract in sem_full (no IEEE claim; both languages read over the same F; tranp maps float to C++ float: the search restricts floats to values exactly representable in binary32, stream sem uses double on both sides)',
-			'statements core: variables hold ints; the statement templates (assign/move_assign*.j2, flow/if/*.j2, flow/while.j2, statement/return.j2) are transcribed by hand in emitLines and tied by stream stmt, not translated; loops carry fuel (no claim about non-termination)',
+			'statements core: variables hold ints; the statement templates (assign/move_assign*.j2, statement/return.j2, flow/if/*.j2, flow/while.j2, flow/for/range.j2) are TRANSLATED on every run (gen_cpp_templates: whole-file skeleton check, head/tail lines as pieces) and interpreted by emitLines; not covered: the is_initializer / is_static / return-self / `std::is_same_v` constexpr branches; loops carry fuel (no claim about non-termination)',
+			'in the C++ reading of a for loop `stop` is evaluated as an expression of its own: that the pasted `v < stop` parses that way is assumed for stops that need no parentheses there (tightArg: atom, group, unary, or a chain tighter than comparison; the other case is the known finding flat:range-arg) and checked by stream stmt (g++ runs the real text)',
 		],
 		trusted=['cppTable + the wrapper grammar (conditional-expression, postfix call/member): ISO C++20 expression grammar transcribed (validated against g++ by streams cpptable and sem)',
 			'denotePy / denoteCpp, pyEval / cEvalX, pyExec / cExec: transcriptions of the two language definitions for int/bool/float operators and the statements core (validated against CPython and g++ -fsanitize=undefined by streams sem and stmt)',
